@@ -70,7 +70,8 @@ type Arg struct {
 	Spelling int `json:"spelling"` // 0 "-p f", 1 "-pf", 2 "--patch-file f", 3 "--patch-file=f"
 	// PathStyle: how the path is written: 0 "f", 1 "./f", 2 "d/../f" (d an existing directory), 3 absolute,
 	// 4 "~f" (a name in the current directory that starts with a tilde: a symbolic link to f; HOME
-	// is another directory, in which no such name exists), 5 "name with spaces f" (likewise a link)
+	// is another directory, in which no such name exists), 5 "name with spaces f", 6 "q[x]*?f",
+	// 7 "r[f" (likewise links)
 	PathStyle int `json:"path_style,omitempty"`
 	// Stray (non-empty): not a -p flag at all but a positional argument with this text, which the
 	// command has no use for ("-", a stray file name); the -p flags around it still count, in order
@@ -287,11 +288,16 @@ func Exec(s *Scen, binDir, dir string) (*Observed, error) {
 			name = "d/../" + name
 		case 3:
 			name = filepath.Join(dir, name)
-		case 4, 5:
+		case 4, 5, 6, 7:
 			if st := s.Files[a.File].State; st == StFile || st == StLinkOK {
 				alias := "~" + name
-				if a.PathStyle == 5 {
+				switch a.PathStyle {
+				case 5:
 					alias = "a name with spaces " + name
+				case 6:
+					alias = "q[x]*?" + name // a name that is not matched by itself read as a glob pattern
+				case 7:
+					alias = "r[" + name // ... and one that is no pattern at all
 				}
 				os.Symlink(name, filepath.Join(dir, alias))
 				name = alias
@@ -578,9 +584,9 @@ func Enumerate() []*Scen {
 				out = append(out, s)
 			}
 		}
-		for style := 0; style < 6; style++ {
+		for style := 0; style < 8; style++ {
 			for sp := 0; sp < 4; sp++ {
-				out = append(out, &Scen{Target: target, Stdin: sim.Bytes(chainDoc), Note: "enumeration: path styles", Files: []File{{Name: "p.json", State: StFile, Content: sim.Bytes(chainPatch(0)), Note: "valid"}, {Name: "q.json", State: StLinkOK, Content: sim.Bytes(chainPatch(1)), Note: "valid"}}, Args: []Arg{{File: 0, Spelling: sp, PathStyle: style}, {File: 1, Spelling: (sp + 1) % 4, PathStyle: (style + 1) % 6}}})
+				out = append(out, &Scen{Target: target, Stdin: sim.Bytes(chainDoc), Note: "enumeration: path styles", Files: []File{{Name: "p.json", State: StFile, Content: sim.Bytes(chainPatch(0)), Note: "valid"}, {Name: "q.json", State: StLinkOK, Content: sim.Bytes(chainPatch(1)), Note: "valid"}}, Args: []Arg{{File: 0, Spelling: sp, PathStyle: style}, {File: 1, Spelling: (sp + 1) % 4, PathStyle: (style + 1) % 8}}})
 			}
 		}
 		for n := 1; n <= 3; n++ {
@@ -874,7 +880,7 @@ func Gen(seed uint64) *Scen {
 	for i := range s.Files {
 		a := Arg{File: i, Spelling: r.Intn(4)}
 		if r.P(300) {
-			a.PathStyle = r.Intn(6)
+			a.PathStyle = r.Intn(8)
 		}
 		s.Args = append(s.Args, a)
 	}
@@ -1122,7 +1128,7 @@ func RunWorker(p sim.Params) *sim.Summary {
 		sum.Enum["fault_and_order_enumeration"]++
 	}
 	if done {
-		sum.Exhaustive = []string{fmt.Sprintf("every fault kind (%d) x every position in -p lists of length 1..3 with all other patches valid, every permutation of three chained and of three overwriting patches, no/duplicate/symlinked arguments, 14 stdin variants (empty, other roots, torn, byte-order marks, trailing data), 255/256/257/512 patch arguments (all undecodable; all applicable; the only bad one at that position), a 1 MiB patch file at each of 3 positions, stdin redirected from a regular file (5 documents, with and without patches; inherited at offsets 1, 17 and 5000), six two-file lists whose second file refers to the whole document or replaces a null root, 100 patch files under an open-file limit of 32, stdin delivered in 1/2/n writes, a named pipe, an inherited pipe (/dev/fd/N) and a relative symlink in a sub-directory as patch file at every position, 6 path styles (plain, ./, d/../, absolute, a name starting with a tilde, a name with spaces) x 4 flag spellings, a stray positional argument (4 texts) at each position of a three-patch list - for both binaries (%d executions)", numFaultKinds, len(enum))}
+		sum.Exhaustive = []string{fmt.Sprintf("every fault kind (%d) x every position in -p lists of length 1..3 with all other patches valid, every permutation of three chained and of three overwriting patches, no/duplicate/symlinked arguments, 14 stdin variants (empty, other roots, torn, byte-order marks, trailing data), 255/256/257/512 patch arguments (all undecodable; all applicable; the only bad one at that position), a 1 MiB patch file at each of 3 positions, stdin redirected from a regular file (5 documents, with and without patches; inherited at offsets 1, 17 and 5000), six two-file lists whose second file refers to the whole document or replaces a null root, 100 patch files under an open-file limit of 32, stdin delivered in 1/2/n writes, a named pipe, an inherited pipe (/dev/fd/N) and a relative symlink in a sub-directory as patch file at every position, 8 path styles (plain, ./, d/../, absolute, a name starting with a tilde, with spaces, with glob metacharacters, with an unclosed bracket) x 4 flag spellings, a stray positional argument (4 texts) at each position of a three-patch list - for both binaries (%d executions)", numFaultKinds, len(enum))}
 	}
 	// 2. seeded random scenarios
 	for i := int64(0); i < p.MaxRuns && time.Now().Before(p.Deadline); i++ {
